@@ -7,6 +7,7 @@
     unordered set yields the holders, and the first phase marks only tickets of holders' ranges. *)
 From LP Require Import Proofs.Tactics Proofs.Loop Proofs.Resume Proofs.Shuffle Proofs.Frames Proofs.Guaranteed
   Proofs.Resume3 Proofs.GuaranteedLoop Proofs.Examples.
+From LP Require Import Proofs.Resume Proofs.Filter Proofs.Select Proofs.Leftover Proofs.SetupGt Proofs.SetupNft Proofs.SetupNgt.
 Open Scope N_scope.
 
 (** v2: after processing participant [u] (range [f..la] holding at least its confirmed tickets) it
@@ -107,6 +108,40 @@ Example C11_nonvacuous_step :
   nr_winning s0 = 1 /\ nr_winning (st gt2_done) = 3.
 Proof. vm_compute. repeat split. Qed.
 
+(** ** from deployment: for every set-up history (allocations with guarantees, blacklisting,
+    un-blacklisting, ...) and every interruption schedule of the three stages, every listed holder ends
+    with at least the guaranteed tickets it qualifies for ([owed]) among its own tickets, and no ticket
+    that won the base lottery is unmarked *)
+Theorem C11_from_deployment : forall (H : list N -> list N) v v2 w0 lf wf ef bf w1 ls ws es bs w2 sd rest ld wd ed bd w3,
+  guar v -> setup_reach_gt H v w0 ->
+  after_interrupted filter_tickets lf w0 = Some wf -> filter_tickets ef bf wf = Ok (w1, 0) ->
+  seeds w1 = sd :: rest ->
+  after_interrupted (select_winners H) ls w1 = Some ws -> select_winners H es bs ws = Ok (w2, 0) ->
+  after_interrupted (distribute_guaranteed_tickets H v2) ld w2 = Some wd ->
+  distribute_guaranteed_tickets H v2 ed bd wd = Ok (w3, 0) ->
+  (forall u, In u (gt_users (st w2)) -> owed v2 (st w2) u <= own_winning (st w2) (st w3) u) /\
+  (forall t, status (st w2) t = true -> status (st w3) t = true).
+Proof.
+  intros H v v2 w0 lf wf ef bf w1 ls ws es bs w2 sd rest ld wd ed bd w3 Hv Hr Haf Ef Hs Has Es Had Ed.
+  destruct (deployed_pipeline_gt H v v2 w0 lf wf ef bf w1 ls ws es bs w2 sd rest ld wd ed bd w3 Hv Hr Haf Ef Hs Has Es Had Ed)
+    as (l & _ & _ & A & B). exact (conj A B).
+Qed.
+
+Theorem C11_from_deployment_ngt : forall (H : list N -> list N) w0 lf wf ef bf w1 ls ws es bs w2 sd rest ld wd ed bd w3,
+  setup_reach_ngt H w0 ->
+  after_interrupted filter_tickets lf w0 = Some wf -> filter_tickets ef bf wf = Ok (w1, 0) ->
+  seeds w1 = sd :: rest ->
+  after_interrupted (select_winners H) ls w1 = Some ws -> select_winners H es bs ws = Ok (w2, 0) ->
+  after_interrupted (secondary_selection_step H) ld w2 = Some wd ->
+  secondary_selection_step H ed bd wd = Ok (w3, 0) ->
+  (forall u, In u (gt_users (st w2)) -> owed false (st w2) u <= own_winning (st w2) (st w3) u) /\
+  (forall t, status (st w2) t = true -> status (st w3) t = true).
+Proof.
+  intros H w0 lf wf ef bf w1 ls ws es bs w2 sd rest ld wd ed bd w3 Hr Haf Ef Hs Has Es Had Ed.
+  destruct (deployed_pipeline_ngt H w0 lf wf ef bf w1 ls ws es bs w2 sd rest ld wd ed bd w3 Hr Haf Ef Hs Has Es Had Ed)
+    as (l & _ & _ & A & B). exact (conj A B).
+Qed.
+
 Print Assumptions C11_v2_step.
 Print Assumptions C11_v1_step.
 Print Assumptions C11_topup.
@@ -116,3 +151,5 @@ Print Assumptions C11_distribute.
 Print Assumptions C11_secondary.
 Print Assumptions C11_nonvacuous.
 Print Assumptions C11_nonvacuous_step.
+Print Assumptions C11_from_deployment.
+Print Assumptions C11_from_deployment_ngt.
